@@ -4,7 +4,7 @@ from __future__ import annotations
 
 import ast
 
-from ..execmodel import ENGINE_MODES, ExecHooks, R, make_session
+from ..execmodel import ENGINE_MODES, ExecHooks, R, make_session, sget, sset, sowner, sowners
 from ..interp import explore
 from ..values import Const, Obj, Seq, Str, Sym, Tup, Lst, tagof
 from .common import site_loc, traces
@@ -32,10 +32,10 @@ CUR = ("cursor", "FakeSnowflakeCursor")
 
 def _session(table, index, dict_result=False):
     duck, conn, cur = make_session()
-    cur.attrs[R().table] = table
-    cur.attrs[R().index] = index
+    sset(cur, "table", table)
+    sset(cur, "index", index)
     cur.attrs[R().dict_flag] = Const(dict_result)
-    cur.attrs[R().arraysize] = Sym("ARRAYSIZE", typ="int", truthy=True)
+    sset(cur, "arraysize", Sym("ARRAYSIZE", typ="int", truthy=True))
     return duck, conn, cur
 
 
@@ -66,10 +66,9 @@ def rule_reset(ctx):
         for mode in ENGINE_MODES:
             for tr in traces(prog, kind, mode):
                 n += 1
-                a = tr.cur.attrs
                 if tr.path.outcome == "raise":
-                    bad = [k for k in (R().table, R().index, R().rowcount)
-                           if not (isinstance(a.get(k), Const) and a[k].v is None)]
+                    bad = [R()[k] for k in ("table", "index", "rowcount")
+                           if not (isinstance(sget(tr.cur, k), Const) and sget(tr.cur, k).v is None)]
                     ok = not bad
                     ctx.ob("C05.a", f"{kind} failing with {mode}: old result set discarded", ok, "fakesnow/cursor.py", str(bad))
                     if not ok:
@@ -77,8 +76,8 @@ def rule_reset(ctx):
                                       f"when {kind} fails ({mode}) the cursor still holds the previous statement's `{bad[0]}`: "
                                       f"a later fetch would hand out rows of the old result set")
                 else:
-                    idx = a.get(R().index)
-                    tab = a.get(R().table)
+                    idx = sget(tr.cur, "index")
+                    tab = sget(tr.cur, "table")
                     ok = isinstance(idx, Const) and idx.v is None and isinstance(tab, Obj) and tab.kind == "arrow" and tab.name != "old_table"
                     ctx.ob("C05.a", f"{kind}: new result set, fetch index unset", ok, "fakesnow/cursor.py", f"{tagof(idx)} {tagof(tab)}")
                     if not ok:
@@ -243,13 +242,13 @@ def rule_slice(ctx):
                         pos = list(sl[0][2])
                         off = kw.get("offset", pos[0] if pos else None)
                         ln = kw.get("length", pos[1] if len(pos) > 1 else None)
-                        new_idx = cur.attrs.get(R().index)
+                        new_idx = sget(cur, "index")
                         idx_falsy = any(t == "truthy(INDEX)" and v is False for t, v in p.assumed)
                         # all comparisons are on linear forms, so `start = idx or 0; idx = start + n` is the same as `idx += n`
                         cur_idx = Const(0) if (idx_name == "unset" or idx_falsy) else IDX
                         if not lin_eq(off, cur_idx):
                             probs.append(f"offset `{tagof(off)}` is not {'0 when no row has been fetched' if cur_idx is not IDX else 'the running index'}")
-                        want_len = size if size_name.startswith("given") else cur.attrs.get(R().arraysize)
+                        want_len = size if size_name.startswith("given") else sget(cur, "arraysize")
                         if not lin_eq(ln, want_len):
                             probs.append(f"length `{tagof(ln)}` is not {'the size argument' if size_name.startswith('given') else 'arraysize'}")
                         got_new = lin(new_idx)
@@ -269,7 +268,7 @@ def rule_slice(ctx):
     getter = m.functions.get("FakeSnowflakeCursor.arraysize")
     def run_set(I):
         duck, conn, cur = _session(_table(), Const(None))
-        cur.attrs[R().arraysize] = Const(1)
+        sset(cur, "arraysize", Const(1))
         if setter is None:
             return Const(None)
         from ..values import Func
@@ -289,7 +288,7 @@ def rule_slice(ctx):
         for p, cur in _run(prog, meth, args, _table, IDX):
             if p.outcome != "return":
                 continue
-            wrote = [e for e in p.effects if e[0] == "store" and e[1] is cur and e[2] == R().arraysize]
+            wrote = [e for e in p.effects if e[0] == "store" and e[1] is sowner(cur, "arraysize") and e[2] == R().arraysize]
             ctx.ob("C05.e", f"{meth} leaves the configured arraysize alone", not wrote, loc)
             if wrote:
                 ctx.violation("C05.e", "cursor", f"FakeSnowflakeCursor.{meth}", "fetch method stores arraysize", loc,
